@@ -52,6 +52,7 @@ type S struct {
 	dropped   string
 	refreshMs int
 	pushCB    bool
+	keepAlive bool
 	pushed    []string
 	pushSent  int
 	drop      func(host string)
@@ -93,6 +94,14 @@ func (s *S) Run(c *scen.Ctx) {
 	s.timeoutMs = []int{3000, 300, 1000}[simrt.Draw(3, "c08.timeout")]
 	s.plans = map[int32]string{}
 	s.replyAt = map[int32]time.Duration{}
+	// a push client: the framework keeps such connections alive with one-way tars_ping requests
+	// every half client idle time-out; those requests are requests like any other (ids!)
+	s.pushCB = simrt.Draw(2, "c08.pushcb") == 1
+	var idle time.Duration
+	if s.pushCB && simrt.Draw(2, "c08.keepalive") == 1 {
+		idle = time.Duration(600+400*simrt.Draw(4, "c08.idle")) * time.Millisecond
+		s.keepAlive = true
+	}
 	s.registry = simrt.Draw(4, "c08.registry") == 3
 	var comm *tars.Communicator
 	obj := "App.Srv.Obj@tcp -h 10.0.0.9 -p 1000 -t 3000"
@@ -109,7 +118,7 @@ func (s *S) Run(c *scen.Ctx) {
 			reg.active = append(reg.active, endpointf.EndpointF{Host: fmt.Sprintf("10.0.1.%d", i+1), Port: 1000, Timeout: 3000, Istcp: 1, Weight: 100})
 			addrs = append(addrs, fmt.Sprintf("10.0.1.%d:1000", i+1))
 		}
-		comm = world.NewClient(world.ClientOpts{InvokeTimeoutMs: s.timeoutMs, RefreshMs: s.refreshMs}, tars.Registrar(reg))
+		comm = world.NewClient(world.ClientOpts{InvokeTimeoutMs: s.timeoutMs, RefreshMs: s.refreshMs, IdleTimeout: idle}, tars.Registrar(reg))
 		obj = "App.Srv.Obj"
 		// the drop is placed where it creates in-flight state: right after a request whose
 		// reply the server holds back has arrived on the endpoint to be dropped (see onRequest)
@@ -130,7 +139,7 @@ func (s *S) Run(c *scen.Ctx) {
 			}
 		}
 	} else {
-		comm = world.NewClient(world.ClientOpts{InvokeTimeoutMs: s.timeoutMs})
+		comm = world.NewClient(world.ClientOpts{InvokeTimeoutMs: s.timeoutMs, IdleTimeout: idle})
 	}
 	for _, a := range addrs {
 		srv, err := world.StartServer(a, handler)
@@ -148,7 +157,7 @@ func (s *S) Run(c *scen.Ctx) {
 	}
 	// a push callback that takes its time: push frames (id 0) are delivered to it, the calls
 	// pending on the connection meanwhile are not disturbed
-	if simrt.Draw(2, "c08.pushcb") == 1 {
+	if s.pushCB {
 		slow := time.Duration(simrt.Draw(4, "c08.pushslow")) * 60 * time.Millisecond
 		for _, p := range s.prxs {
 			p.SetPushCallback(func(b []byte) {
@@ -158,8 +167,8 @@ func (s *S) Run(c *scen.Ctx) {
 				simrt.Sleep(slow)
 			})
 		}
-		s.pushCB = true
 		c.Describe("push_callback_ms", int(slow/time.Millisecond))
+		c.Describe("keep_alive_every", (idle / 2).String())
 	}
 	c.Describe("proxy_objects", nprx)
 	c.Describe("registry", s.registry)
@@ -217,9 +226,26 @@ func (s *S) Run(c *scen.Ctx) {
 	}
 	wg.Wait()
 	simrt.Sleep(time.Duration(s.timeoutMs)*time.Millisecond + 500*time.Millisecond)
+	if idle > 0 {
+		simrt.Sleep(idle) // at least one more keep-alive round on a quiet connection
+	}
 	s.mu.Lock()
-	for _, p := range s.prxs {
-		s.final = append(s.final, tars.VerifState(p))
+	for try := 0; ; try++ {
+		var final []tars.VerifProxyState
+		busy := false
+		for _, p := range s.prxs {
+			st := tars.VerifState(p)
+			final = append(final, st)
+			busy = busy || st.QueueLen != 0
+		}
+		s.final = final
+		// a keep-alive ping may be on its way at this very instant: look again a little later
+		if !busy || idle == 0 || try == 3 {
+			break
+		}
+		s.mu.Unlock()
+		simrt.Sleep(13 * time.Millisecond)
+		s.mu.Lock()
 	}
 	s.finished = true
 	s.mu.Unlock()
@@ -402,6 +428,9 @@ func (s *S) Check(c *scen.Ctx, res *simrt.Result) {
 		}
 	}
 	for i, f := range s.final {
+		if s.keepAlive && res.Stalls > 0 {
+			break // a keep-alive ping may be held by a goroutine the run has stalled (injected fault)
+		}
 		if s.finished && (f.Pending != 0 || f.QueueLen != 0) {
 			c.Fail("C08", "leftover", "doInvoke", "after all calls returned and the world was idle: pending-reply table has %d entries, queueLen=%d (proxy object %d)", f.Pending, f.QueueLen, i)
 		}
